@@ -23,7 +23,8 @@ TInit == /\ tid \in 1..NT /\ l = 1 /\ verdict = "run"
          /\ pick = NoPick
 
 CallOf(e) == Call(e.op, e.srv, e.k, e.ns, e.all,
-                  IF e.op = "SetPull" THEN e.ok ELSE e.tradok, e.m, e.id, e.ot, e.coe)
+                  IF e.op = "SetPull" THEN e.ok ELSE e.tradok, e.m, e.id, e.ot, e.coe,
+                  e.flt)
 
 Drift(e, r, st2) ==
   IF e.op \in {"RemoveNs", "SetPull"} THEN {}
